@@ -33,6 +33,12 @@ pub fn digest_shim<H, T: HashInput>(data: T) -> (r: HashOut)
     ensures hash_out_view(r) == data.hashed::<H>(),
 { unimplemented!() }
 
+/// `String::from("literal")` (rule R9)
+#[verifier::external_body]
+pub fn string_from_lit(lit: &'static str) -> (r: String)
+    ensures r@ == lit@,
+{ unimplemented!() }
+
 /// `String + &x.to_string()` (rule R9)
 #[verifier::external_body]
 pub fn str_cat(a: String, b: &String) -> (r: String)
